@@ -35,23 +35,35 @@ def run(ch: Choices, focus: str = "C09", params: Optional[dict] = None) -> dict:
     nprop = ch.choose(4, "nprop")
     height = [16, 6, 10, 32][ch.choose(4, "height")]
     nonneg = ch.chance(1, 2, "nonneg")
-    doms = []
+    pad = [254, 256, 300][ch.choose(3, "pad.n")] if ch.chance(1, 12, "pad") else 0  # instantiated domains in front
+    doms = [[0, 0] for _ in range(pad)]
     for i in range(ndom):
         size = SIZES[ch.choose(len(SIZES), f"d{i}.size")]
         lo = LOWS[ch.choose(len(LOWS), f"d{i}.lo")]
-        if nonneg:
+        if nonneg or pad:
             lo = abs(lo)
         doms.append([lo, lo + size - 1])
+    ndom += pad
     width = max(hi for lo, hi in doms) + 1
     cost = np.array([[1 + ch.choose(3, "cost") for _ in range(max(1, width))] for _ in range(ndom)], dtype=np.int64)
-    triggers = np.array([[ch.choose(8, "trig") for _ in range(nprop)] for _ in range(ndom)], dtype=np.uint8).reshape(ndom, nprop)
-    stack = np.empty((height, ndom, 2), dtype=np.int32)
-    ne = np.empty((height, nprop), dtype=bool)
-    dus = np.empty((height, 2), dtype=np.uint16)
-    top = np.ones((1,), dtype=np.uint8)
-    queue = np.zeros(nprop, dtype=bool)
-    stats = np.zeros(13, dtype=np.int64)
-    cp_init(stack, ne, dus, top, np.array(doms, dtype=np.int32))
+    # the arrays are those a real BacktrackSolver allocates for a problem of this shape (dtypes and spare levels are
+    # the tree's own); the constraints are placeholders, the trigger masks are then drawn at random
+    from nucs.problems.problem import Problem
+    from nucs.propagators.propagators import ALG_DUMMY
+    from nucs.solvers.backtrack_solver import BacktrackSolver
+
+    problem = Problem([(lo, hi) for lo, hi in doms])
+    for _ in range(nprop):
+        problem.add_propagator(([ndom - 1], ALG_DUMMY, []))
+    solver = BacktrackSolver(problem, stack_max_height=height, log_level="ERROR")
+    triggers = problem.triggers
+    for i in range(pad, ndom):
+        for p_ in range(nprop):
+            triggers[i, p_] = ch.choose(8, "trig")
+    stack, ne, dus, top = solver.shr_domains_stack, solver.not_entailed_propagators_stack, solver.dom_update_stack, solver.stacks_top
+    queue, stats = solver.triggered_propagators, solver.statistics
+    queue[:] = False
+    height = min(height, len(stack))
     ref = []  # reference stack: levels below the current one: (box, flags, dom, events needed)
     cur_box = np.array(doms, dtype=np.int32)
     cur_flags = np.ones(nprop, dtype=bool)
@@ -66,7 +78,7 @@ def run(ch: Choices, focus: str = "C09", params: Optional[dict] = None) -> dict:
                 if not np.array_equal(stack[t], cur_box) or not np.array_equal(ne[t], cur_flags):
                     viol("C09", "current-level-drift", f"ops {oplog}: level {t} holds {stack[t].tolist()} flags {ne[t].tolist()}, reference {cur_box.tolist()} {cur_flags.tolist()}")
                     break
-                branchable = [d for d in range(ndom) if cur_box[d][0] < cur_box[d][1]]
+                branchable = [d for d in range(pad, ndom) if cur_box[d][0] < cur_box[d][1]]
                 kinds = []
                 if branchable and t + 2 < height:
                     kinds += ["push"] * 4
@@ -169,7 +181,7 @@ def run(ch: Choices, focus: str = "C09", params: Optional[dict] = None) -> dict:
         CLOCK.clear_budget()
     out["steps"] = CLOCK.count - c0
     out["log_sha"] = sha([oplog, [str(v) for v in V]])
-    out["key"] = sha([doms, [list(map(str, o)) for o in oplog]])[:16]
+    out["key"] = sha([doms[pad:], pad, [list(map(str, o)) for o in oplog]])[:16]
     out["nontrivial"] = len(oplog) >= 2 and any(o[0] == "push" for o in oplog)
-    out["sample"] = {"domains": doms, "height": height, "ops": [list(map(str, o)) for o in oplog][:12]}
+    out["sample"] = {"domains": doms[pad:], "instantiated_padding_domains": pad, "height": height, "ops": [list(map(str, o)) for o in oplog][:12]}
     return out
